@@ -83,7 +83,7 @@ extern "C" void h_array_fn() {     // array = ws ( ']' | value *( ws ',' ws valu
     const C *b = mkbuf(); SS stream;
     unsigned off = vf_u32(); vf_assume(off <= L); unsigned pos = off;
     V v = PR::parseArray(stream, b, off, SizeT(L));
-#ifdef STEER   /* counterexample steering only: look for a broken failure sentinel that an enclosing container would resume from */
+#if defined(STEER) && STEER == 2   /* counterexample steering only: look for a broken failure sentinel that an enclosing container would resume from */
     vf_assume(v.IsUndefined() && off < L && (b[off] == C('}') || b[off] == C(']') || b[off] == C(',')));
 #endif
     bool ok = false; unsigned end = 0, cnt = 0, i = 0; bool shape = true;
@@ -116,7 +116,7 @@ extern "C" void h_object_fn() {    // object = ws ( '}' | member *( ws ',' ws me
     const C *b = mkbuf(); SS stream;
     unsigned off = vf_u32(); vf_assume(off <= L); unsigned pos = off;
     V v = PR::parseObject(stream, b, off, SizeT(L));
-#ifdef STEER
+#if defined(STEER) && STEER == 2
     vf_assume(v.IsUndefined() && off < L && (b[off] == C('}') || b[off] == C(']') || b[off] == C(',')));
 #endif
     bool ok = false; unsigned end = 0, cnt = 0, i = 0, u = 0; bool shape = true;
